@@ -116,7 +116,7 @@ def op_coq(o):
     if k == 'concat': return 'OConcat %s %s' % (nat(o['dst']), clist(nat(r) for r in o['srcs']))
     if k == 'add':
         a = o['a']
-        s = 'AddNone' if a == 'none' else 'AddZero' if a in ('zero', 'zerof') else '(AddReg %s)' % nat(a['reg']) if 'reg' in a else '(AddRecs %s)' % clist(rec_coq(x) for x in a['recs']) if 'recs' in a else '(AddRec %s)' % rec_coq(a['rec'])
+        s = 'AddNone' if a == 'none' else 'AddZero' if a in ('zero', 'zerof') else '(AddRec [("data", %s)])' % cell_coq(a['num']) if 'num' in a else '(AddReg %s)' % nat(a['reg']) if 'reg' in a else '(AddRecs %s)' % clist(rec_coq(x) for x in a['recs']) if 'recs' in a else '(AddRec %s)' % rec_coq(a['rec'])
         return 'OAdd %s %s %s' % (nat(o['dst']), nat(o['r']), s)
     if k == 'copy': return 'OCopy %s %s' % (nat(o['dst']), nat(o['r']))
     if k == 'sub': return 'OSub %s %s %s' % (nat(o['dst']), nat(o['r']), clist(qs(n) for n in o['ks']))
@@ -289,6 +289,7 @@ def ref_step(o, get, conv):
         if 'reg' in a:
             t2 = get(a['reg'])
             return 'new', (None if t2 is None else ref_concat([t, t2]))
+        if 'num' in a: return 'new', ref_concat([t, Ref(['data'], [{'data': conv(a['num'])}])])       # d + 5 = d + dictable(5): a one-cell table with the column 'data'
         if 'recs' in a:
             recs = [dict((n, conv(x)) for n, x in rc) for rc in a['recs']]
             cols = list(dict.fromkeys(n for rc in recs for n in rc))
@@ -449,8 +450,8 @@ def impl(case):
                 elif k == 'concat': result = dictable.concat([regs[r] for r in o['srcs']]) if o.get('form') == 'list' else dictable.concat(*[regs[r] for r in o['srcs']])
                 elif k == 'add':
                     a = o['a']
-                    other = None if a == 'none' else 0 if a == 'zero' else 0.0 if a == 'zerof' else regs[a['reg']] if 'reg' in a else Krecs(o, [[(n, conv(x)) for n, x in rc] for rc in a['recs']]) if 'recs' in a else dict((K(o, n), conv(x)) for n, x in a['rec'])
-                    result = (other + regs[o['r']]) if o.get('radd') and a in ('zero', 'zerof') else (regs[o['r']] + other)
+                    other = None if a == 'none' else 0 if a == 'zero' else 0.0 if a == 'zerof' else conv(a['num']) if 'num' in a else regs[a['reg']] if 'reg' in a else Krecs(o, [[(n, conv(x)) for n, x in rc] for rc in a['recs']]) if 'recs' in a else dict((K(o, n), conv(x)) for n, x in a['rec'])
+                    result = (other + regs[o['r']]) if o.get('radd') and (a in ('zero', 'zerof') or (isinstance(a, dict) and 'num' in a)) else (regs[o['r']] + other)
                 elif k == 'sub': result = regs[o['r']] - (o['ks'][0] if len(o['ks']) == 1 and o.get('form') != 'list' else list(o['ks']))
                 elif k == 'copy': result = dictable(regs[o['r']]) if o.get('form') == 'ctor' else regs[o['r']].copy()
                 else: raise RuntimeError('unknown op ' + k)
@@ -703,6 +704,7 @@ def gen_op(rng, shadow, malformed):
         q = rng.random()
         if q < 0.15: a = 'none'
         elif q < 0.3: a = rng.choice(['zero', 'zerof'])
+        elif q < 0.38: a = {'num': rng.choice([1, 5, -2, {'f': 3}, {'f': -1}])}          # a non-zero number is NOT the identity: it is appended as a cell of column 'data'
         elif q < 0.65: a = {'reg': rng.randrange(NREGS)}
         else:
             ks = [nm for nm in NAMES + DIGITS if rng.random() < 0.4]
@@ -871,7 +873,7 @@ def single_ops(names, nrows):
         yield {'op': 'do', 'dst': dst, 'r': r, 'f': f, 'ks': None}
         yield {'op': 'do', 'dst': dst, 'r': r, 'f': f, 'ks': []}
     for srcs in ([], [0], [0, 0], [0, 2], [2, 0], [0, 2, 0]): yield {'op': 'concat', 'dst': dst, 'srcs': srcs}
-    for a in ('none', 'zero', 'zerof', {'reg': 0}, {'reg': 2}, {'rec': []}, {'rec': [['a', 5]]}, {'rec': [['c', 5], ['a', None]]}):
+    for a in ('none', 'zero', 'zerof', {'num': 1}, {'num': {'f': 5}}, {'reg': 0}, {'reg': 2}, {'rec': []}, {'rec': [['a', 5]]}, {'rec': [['c', 5], ['a', None]]}):
         yield {'op': 'add', 'dst': dst, 'r': r, 'a': a, 'radd': False}
     yield {'op': 'add', 'dst': dst, 'r': r, 'a': 'zero', 'radd': True}
     yield {'op': 'copy', 'dst': dst, 'r': r}
